@@ -15,7 +15,11 @@ RULE = ('synthetic structures of 2-5 chains (1-12 atoms each, table order contig
         'or random; some chains are placed 100 A away (no contact); atom names are backbone / side chain / hydrogens as written in PDB columns '
         '(" H  ", " HA ", "1HB ", "HD11") / names containing but not starting with H / blank; every structure is run with 2 cutoffs x all ordered '
         'chain pairs x the 8 combinations of only_backbone_atoms/excludeH/return_contact_pairs, and with allchains x the same 8; plus a malformed '
-        'stream (unknown chain, chain paired with itself, single-chain allchains, negative and zero cutoff) and the bundled 3CRO at 8.5 / 6.0 A '
+        'stream (unknown chain, chain paired with itself, single-chain allchains, negative and zero cutoff); HISTORIES: one live object, 2-4 calls '
+        '(get_contact_atoms / get_contact_residues, varying options, chain pairs, cutoffs; identical calls repeated) alternating with edits of one chain '
+        'through the public API (transform.translation, update_xyz, update, update_column by exact lattice vectors onto / next to a cutoff or 100 A away; '
+        'renaming atoms; rot_axis), every call compared with Model and Spec on the table read back from the object at that moment; no-contact '
+        'structures and structures whose contacting atoms are all filtered out for every option combination; and the bundled 3CRO at 8.5 / 6.0 A '
         '(thorough: further option combinations, all four chains of 3CRO, 3CRO_H, 1AK4 target and 10w; a few corpus structures run first). The model receives the exact rationals of the doubles the library parsed. A case is counted '
         'non-trivial when its result is non-empty or an exception, distinct by (structure, arguments).')
 ASSUMPTIONS = ['single-model files (no ENDMDL): with models get() returns one list per model and get_contact_atoms is not defined',
@@ -167,12 +171,71 @@ def to_lines(table):
 # running the real code
 # ----------------------------------------------------------------------------------------------------------------
 
-_DB = {}          # one live interface object (key of the structure -> object)
-_TABLE = {}       # key of the structure -> table as the library parsed it, in driver form
+_DB = {}          # one live interface object (key of the structure (+ history) -> object)
+_TABLE = {}       # key -> table the object holds at the moment of the final call, in driver form
 
 
 def struct_key(c):
-    return c['pdb'] if 'pdb' in c else json.dumps(c['lines'])
+    if 'pdb' in c:
+        return c['pdb']
+    if c.get('history'):
+        return json.dumps([c['lines'], c['history']])
+    return json.dumps(c['lines'])
+
+
+def call_kwargs(c):
+    return dict(cutoff=float(unrat(c['cutoff'])), allchains=c['allchains'], chain1=c['chain1'], chain2=c['chain2'],
+                only_backbone_atoms=c['bb'], excludeH=c['noH'], return_contact_pairs=c['pairs'])
+
+
+def do_call(db, c):
+    """the real call described by `c` (a case or a history step)"""
+    kw = call_kwargs(c)
+    if c['op'] == 'contact_atoms':
+        return db.get_contact_atoms(extend_to_residue=c['extend'], **kw)
+    return db.get_contact_residues(**kw)
+
+
+def apply_edit(db, e):
+    """edit the coordinates / names of one chain of a live object through the public API"""
+    from pdb2sql import transform
+    ch = e['chain']
+    how = e['how']
+    if how == 'rename':
+        rows = [int(i) for i in db.get('rowID', chainID=ch)]
+        db.update_column('name', list(e['names']), index=rows)
+        return
+    if how == 'rot_axis':
+        transform.rot_axis(db, np.array([0.0, 0.0, 1.0]), np.pi / 2, chainID=ch)
+        return
+    v = np.array([q / 4.0 for q in e['vec']])
+    if how == 'translation':
+        transform.translation(db, v, chainID=ch)
+    elif how == 'update_xyz':
+        db.update_xyz(np.array(db.get('x,y,z', chainID=ch)) + v, chainID=ch)
+    elif how == 'update':
+        db.update('x,y,z', np.array(db.get('x,y,z', chainID=ch)) + v, chainID=ch)
+    elif how == 'update_column':
+        rows = [int(i) for i in db.get('rowID', chainID=ch)]
+        for k, col in enumerate('xyz'):
+            vals = [float(x) + float(v[k]) for x in db.get(col, chainID=ch)]
+            db.update_column(col, vals, index=rows)
+    else:
+        raise ValueError('unknown edit ' + how)
+
+
+def open_db(c):
+    """a fresh object on which the case's history (earlier calls, whose results are dropped, and edits) has been replayed"""
+    db = interface(c['pdb'] if 'pdb' in c else list(c['lines']))
+    for st in c.get('history') or []:
+        if st['kind'] == 'call':
+            try:
+                do_call(db, st)
+            except Exception:
+                pass                      # that call is a case of its own; here only its effect on the object matters
+        else:
+            apply_edit(db, st)
+    return db
 
 
 def get_db(c):
@@ -184,7 +247,7 @@ def get_db(c):
             except Exception:
                 pass
         _DB.clear()
-        _DB[k] = interface(c['pdb'] if 'pdb' in c else list(c['lines']))
+        _DB[k] = open_db(c)
     return _DB[k]
 
 
@@ -198,37 +261,82 @@ def table_of(db):
 
 
 def get_table(c):
+    """the table the object holds at the moment of the case's call (never raises: an unreadable table is sent as empty)"""
     k = struct_key(c)
     if k not in _TABLE:
         if len(_TABLE) > 4:
             _TABLE.clear()
-        _TABLE[k] = table_of(get_db(c))
+        try:
+            _TABLE[k] = table_of(get_db(c))
+        except Exception:
+            _TABLE[k] = []
     return _TABLE[k]
 
 
+# ---- canonical forms: total -- whatever comes back becomes a JSON value --------------------------------------------
+
+def as_int(x):
+    if isinstance(x, bool) or not isinstance(x, (int, np.integer)):
+        raise TypeError('not an integer: %r' % (x,))
+    return int(x)
+
+
+def as_str(x):
+    if not isinstance(x, str):
+        raise TypeError('not a string: %r' % (x,))
+    return str(x)
+
+
+def as_res(x):
+    if len(x) != 3:
+        raise TypeError('not a residue triple: %r' % (x,))
+    return [as_str(x[0]), as_int(x[1]), as_str(x[2])]
+
+
 def canon_chains(d):
-    return {'chains': [[k, [int(i) for i in v]] for k, v in sorted(d.items())]}
+    return {'chains': [[k, [as_int(i) for i in v]] for k, v in sorted((as_str(k), v) for k, v in d.items())]}
 
 
 def canon_pairs(d):
-    return {'pairs': [[int(k), [int(i) for i in v]] for k, v in sorted((int(k), v) for k, v in d.items())]}
+    return {'pairs': [[k, [as_int(i) for i in v]] for k, v in sorted((as_int(k), v) for k, v in d.items())]}
+
+
+def canon_res_chains(d):
+    return {'chains': [[k, [as_res(x) for x in v]] for k, v in sorted((as_str(k), v) for k, v in d.items())]}
+
+
+def canon_res_pairs(d):
+    return {'pairs': [[k, [as_res(x) for x in v]] for k, v in sorted((as_res(k), v) for k, v in d.items())]}
+
+
+def canon(c, r):
+    """canonical JSON value of what the call returned; any unexpected shape / key type becomes {'unexpected': ...}"""
+    try:
+        if not isinstance(r, dict):
+            raise TypeError('not a dict')
+        if c['op'] == 'contact_atoms':
+            return canon_pairs(r) if c['pairs'] else canon_chains(r)
+        return canon_res_pairs(r) if c['pairs'] else canon_res_chains(r)
+    except Exception as e:
+        return {'unexpected': repr(r)[:400], 'why': repr(e)[:200]}
 
 
 def min_margin(c):
-    """smallest | distance - cutoff | over the pairs of atoms of different chains that are not exactly on the cutoff (float arithmetic:
-    its error is far below the 1e-6 band)"""
+    """smallest | distance - cutoff | over the pairs of atoms that are not exactly on the cutoff (float arithmetic: its error is
+    far below the 1e-6 band)"""
     k = ('margin', struct_key(c), c['cutoff'])
     if k in _MARGIN:
         return _MARGIN[k]
     t = get_table(c)
-    xyz = np.array([[float(unrat(r[7])), float(unrat(r[8])), float(unrat(r[9]))] for r in t])
-    cut = float(unrat(c['cutoff']))
     best = np.inf
-    for i in range(0, len(xyz), 512):
-        d = np.sqrt(((xyz[i:i + 512, None, :] - xyz[None, :, :]) ** 2).sum(-1))
-        m = np.abs(d - cut)
-        m[d == cut] = np.inf
-        best = min(best, float(m.min()))
+    if t:
+        xyz = np.array([[float(unrat(r[7])), float(unrat(r[8])), float(unrat(r[9]))] for r in t])
+        cut = float(unrat(c['cutoff']))
+        for i in range(0, len(xyz), 512):
+            d = np.sqrt(((xyz[i:i + 512, None, :] - xyz[None, :, :]) ** 2).sum(-1))
+            m = np.abs(d - cut)
+            m[d == cut] = np.inf
+            best = min(best, float(m.min()))
     if len(_MARGIN) > 64:
         _MARGIN.clear()
     _MARGIN[k] = best
@@ -252,26 +360,19 @@ def exact_on_cutoff(c):
     return n
 
 
-def call_kwargs(c):
-    kw = dict(cutoff=float(unrat(c['cutoff'])), allchains=c['allchains'], chain1=c['chain1'], chain2=c['chain2'],
-              only_backbone_atoms=c['bb'], excludeH=c['noH'], return_contact_pairs=c['pairs'])
-    return kw
-
-
 def impl(ctx, c):
+    """canonical outcome of the real call -- never raises: exceptions of the call become their tag, anything else that goes
+    wrong (history replay, unexpected return value) becomes an {'unexpected': ...} value that disagrees with Model and Spec"""
     try:
         db = get_db(c)
         get_table(c)
-        kw = call_kwargs(c)
-        if c['op'] == 'contact_atoms':
-            r = db.get_contact_atoms(extend_to_residue=c['extend'], **kw)
-            return canon_pairs(r) if c['pairs'] else canon_chains(r)
-        r = db.get_contact_residues(**kw)
-        if c['pairs']:
-            return {'pairs': [[[k[0], int(k[1]), k[2]], [[x[0], int(x[1]), x[2]] for x in v]] for k, v in sorted(r.items())]}
-        return {'chains': [[k, [[x[0], int(x[1]), x[2]] for x in v]] for k, v in sorted(r.items())]}
+    except Exception as e:
+        return {'unexpected': 'building the object / replaying the history raised ' + repr(e)[:300]}
+    try:
+        r = do_call(db, c)
     except Exception as e:
         return exc_tag(e)
+    return canon(c, r)
 
 
 def driver_line(c):
@@ -382,6 +483,9 @@ def file_cases(ctx, op, extends=(False,), heavy=True):
     return out
 
 
+EDITS = ['translation', 'update_xyz', 'update', 'update_column']
+
+
 def corpus(ctx, op='contact_atoms', extends=(False,)):
     """small hand-made structures, run first (so that a replay is small whenever a small structure shows the failure):
     two atoms exactly on / one lattice step inside / outside every cutoff; a hub atom in contact with two other chains;
@@ -408,12 +512,116 @@ def corpus(ctx, op='contact_atoms', extends=(False,)):
              atom_line(4, ' CA ', 'ALA', 'B', 7, 3, 0, 0), atom_line(5, ' O  ', 'ALA', 'B', 7, 90, 0, 0), atom_line(6, ' N  ', 'GLY', 'B', 7, 95, 0, 0),
              atom_line(7, ' CA ', 'ALA', 'C', -7, 0, 3, 0), atom_line(8, ' CB ', 'ALA', 'C', -7, 0, 60, 0)]
     out += option_cases(op, {'lines': lines}, ['A', 'B', 'C'], [3.0], 'corpus:residue-keys', extends)
+    # no contact at all, for every option combination (two chains; three chains with allchains): the partner chain is far away
+    far2 = [atom_line(1, ' CA ', 'ALA', 'A', 1, 0, 0, 0), atom_line(2, ' CB ', 'ALA', 'A', 1, 1, 0, 0), atom_line(3, ' CA ', 'GLY', 'B', 1, 100, 0, 0),
+            atom_line(4, ' H  ', 'GLY', 'B', 1, 101, 0, 0)]
+    out += option_cases(op, {'lines': far2}, ['A', 'B'], [5.0, 8.5], 'corpus:no-contact', extends)
+    far3 = far2 + [atom_line(5, ' N  ', 'SER', 'C', 1, 0, 200, 0)]
+    out += option_cases(op, {'lines': far3}, ['A', 'B', 'C'], [8.5], 'corpus:no-contact', extends)
+    # atoms within the cutoff, but the filters remove every contacting atom (hydrogens only / side chain only on one side)
+    onlyH = [atom_line(1, ' H  ', 'ALA', 'A', 1, 0, 0, 0), atom_line(2, ' HA ', 'ALA', 'A', 1, 0, 1, 0), atom_line(3, ' CB ', 'GLY', 'B', 1, 3, 0, 0),
+             atom_line(4, ' CA ', 'GLY', 'B', 2, 60, 0, 0), atom_line(5, ' HB2', 'SER', 'C', 1, 0, 0, 3), atom_line(6, ' CG ', 'SER', 'C', 1, 0, 0, 4)]
+    out += option_cases(op, {'lines': onlyH}, ['A', 'B', 'C'], [3.0, 5.0], 'corpus:filtered-out', extends)
+    # the smallest histories: a call, chain B moved away (or back into contact) through each editing entry point, the same call again
+    near = [atom_line(1, ' CA ', 'ALA', 'A', 1, 0, 0, 0), atom_line(2, ' CA ', 'GLY', 'B', 1, 3, 0, 0)]
+    for how in EDITS:
+        for vecs in ([[400, 0, 0]], [[400, 0, 0], [-400, 0, 0]]):
+            for pairs in (False, True):
+                call = {'kind': 'call', 'op': op, 'cutoff': rat(3.0), 'allchains': False, 'chain1': 'A', 'chain2': 'B', 'bb': False, 'noH': False,
+                        'pairs': pairs, 'extend': extends[-1] if op == 'contact_atoms' else False}
+                hist = [call]
+                for v in vecs:
+                    hist.append({'kind': 'edit', 'how': how, 'chain': 'B', 'vec': v})
+                c = {k: v for k, v in call.items() if k != 'kind'}
+                c.update({'lines': near, 'history': hist, 'family': 'corpus:history'})
+                out.append(c)
+    return out
+
+
+# ----------------------------------------------------------------------------------------------------------------
+# histories: one live object, calls alternating with edits of one chain through the public API
+# ----------------------------------------------------------------------------------------------------------------
+
+
+
+def random_call(rng, chains, call_ops, with_extend, cuts):
+    op = rng.choice(call_ops)
+    a, b = rng.sample(chains, 2)
+    return {'kind': 'call', 'op': op, 'cutoff': rat(float(rng.choice(cuts))), 'allchains': rng.random() < 0.25, 'chain1': a, 'chain2': b,
+            'bb': rng.random() < 0.3, 'noH': rng.random() < 0.4, 'pairs': rng.random() < 0.5,
+            'extend': op == 'contact_atoms' and with_extend and rng.random() < 0.7}
+
+
+def random_edit(rng, table, chains, target):
+    """an edit of one chain, applied to the harness's own copy of the structure (`table`, quarter units) as well"""
+    ch = rng.choice(chains)
+    mine = [a for a in table if a['chain'] == ch]
+    others = [a for a in table if a['chain'] != ch]
+    r = rng.random()
+    if r < 0.12:
+        names = [pick_name(rng, blank_ok=False) for _ in mine]
+        for a, n in zip(mine, names):
+            a['name'] = n
+        return {'kind': 'edit', 'how': 'rename', 'chain': ch, 'names': [n.strip() for n in names]}
+    if r < 0.20:
+        return {'kind': 'edit', 'how': 'rot_axis', 'chain': ch}          # inexact: such histories are protected by the 1e-6 band only
+    if r < 0.35:
+        vec = [rng.choice([-1, 1]) * 400, rng.randint(-8, 8), rng.randint(-8, 8)]      # far away: no contact any more
+    else:
+        a, b = rng.choice(mine), rng.choice(others)
+        off, _ = pick_offset(rng, target if rng.random() < 0.8 else None)
+        vec = [b['q'][i] + off[i] - a['q'][i] for i in range(3)]
+    for a in mine:
+        a['q'] = [a['q'][i] + vec[i] for i in range(3)]
+    return {'kind': 'edit', 'how': rng.choice(EDITS), 'chain': ch, 'vec': vec}
+
+
+def history_cases(ctx, ops, n_hist, family='history'):
+    """`ops`: operations the calls are drawn from ('contact_atoms', 'contact_residues', and the flag 'extend').  One case per call of
+    every history; the case carries the whole prefix (earlier calls and edits), which is replayed on a fresh object, so that every
+    case is self-contained.  Model and Spec get the table read back from the object just before the call."""
+    rng = ctx.rng
+    out = []
+    call_ops = [o for o in ops if o != 'extend']
+    for _ in range(n_hist):
+        target = rng.choice(CUTS)
+        table = gen_structure(rng, nchains=rng.choice([2, 2, 3, 3, 4]), max_atoms=8, target_cutoff=target)
+        lines = to_lines(table)
+        chains = chains_of_lines(lines)
+        cuts = [target, target, rng.choice(CUTS)]
+        hist = []
+        rotated = False
+        nsteps = rng.randint(2, 4)
+        last_call = None
+        for k in range(nsteps):
+            # a call
+            r = rng.random()
+            if last_call is not None and r < 0.2:
+                call = dict(last_call)                                    # the identical call again
+            elif last_call is not None and r < 0.45:
+                call = dict(last_call)                                    # same options, other chain pair / cutoff
+                call['chain1'], call['chain2'] = rng.sample(chains, 2)
+                call['cutoff'] = rat(float(rng.choice(cuts)))
+            else:
+                call = random_call(rng, chains, call_ops, 'extend' in ops, cuts)
+            c = {k2: v for k2, v in call.items() if k2 != 'kind'}
+            c.update({'lines': lines, 'history': list(hist), 'family': family + (':after-rotation' if rotated else '') +
+                      (':after-edit' if any(h['kind'] == 'edit' for h in hist) else ':no-edit-yet' if hist else ':first-call')})
+            out.append(c)
+            hist.append(call)
+            last_call = call
+            # an edit (not after the last call; sometimes none: consecutive calls on the unchanged object)
+            if k < nsteps - 1 and rng.random() < 0.75:
+                e = random_edit(rng, table, chains, target)
+                rotated = rotated or e['how'] == 'rot_axis'
+                hist.append(e)
     return out
 
 
 def cases(ctx):
     out = structure_cases(ctx, 'contact_atoms', ctx.scale(36, 220))
     out += malformed_cases(ctx, 'contact_atoms', ctx.scale(6, 40))
+    out += history_cases(ctx, ['contact_atoms', 'contact_residues'], ctx.scale(60, 600))
     out += file_cases(ctx, 'contact_atoms')
     return out
 
@@ -423,40 +631,55 @@ def cases(ctx):
 # ----------------------------------------------------------------------------------------------------------------
 
 def near_boundary(c):
-    return min_margin(c) < 1e-6
+    try:
+        return min_margin(c) < 1e-6
+    except Exception:
+        return False
 
 
 def sort_values(o):
-    if isinstance(o, dict):
+    if isinstance(o, dict) and ('pairs' in o or 'chains' in o):
         k = 'pairs' if 'pairs' in o else 'chains'
-        return {k: [[e[0], sorted(e[1])] for e in o[k]]}
+        try:
+            return {k: [[e[0], sorted(e[1])] for e in o[k]]}
+        except Exception:
+            return o
     return o
 
 
 def agree_model(c, out, model):
-    if out == model:
-        return True
-    if near_boundary(c):
-        return 'discard'
-    return f'implementation {json.dumps(out)[:300]} model {json.dumps(model)[:300]}'
+    try:
+        if out == model:
+            return True
+        if near_boundary(c):
+            return 'discard'
+    except Exception as e:
+        return f'comparison failed ({e!r}): implementation {json.dumps(out, default=str)[:300]}'
+    return f'implementation {json.dumps(out, default=str)[:300]} model {json.dumps(model, default=str)[:300]}'
 
 
 def agree_spec(c, out, spec):
-    if spec == 'NA':
-        return True                      # outside what the property speaks about: compared with the Model only
-    if isinstance(out, str):
-        return f'implementation raised {out} on a case the property covers'
-    if sort_values(out) == sort_values(spec):
-        return True
-    if near_boundary(c):
-        return 'discard'
-    return f'implementation {json.dumps(out)[:300]} property {json.dumps(spec)[:300]}'
+    try:
+        if spec == 'NA':
+            return True                      # outside what the property speaks about: compared with the Model only
+        if isinstance(out, str):
+            return f'implementation raised {out} on a case the property covers'
+        if sort_values(out) == sort_values(spec):
+            return True
+        if near_boundary(c):
+            return 'discard'
+    except Exception as e:
+        return f'comparison failed ({e!r}): implementation {json.dumps(out, default=str)[:300]}'
+    return f'implementation {json.dumps(out, default=str)[:300]} property {json.dumps(spec, default=str)[:300]}'
 
 
 def result_size(out):
-    if isinstance(out, dict):
-        k = 'pairs' if 'pairs' in out else 'chains'
-        return sum(len(e[1]) for e in out[k])
+    try:
+        if isinstance(out, dict) and ('pairs' in out or 'chains' in out):
+            k = 'pairs' if 'pairs' in out else 'chains'
+            return sum(len(e[1]) for e in out[k])
+    except Exception:
+        pass
     return -1
 
 
@@ -485,8 +708,20 @@ def distribution(recs):
             nch[n] = nch.get(n, 0) + 1
             if exact_on_cutoff(c):
                 on_cut += 1
+    hist = {'calls_after_an_edit': 0, 'calls_repeated_without_edit': 0, 'edits': {}}
+    for r in recs:
+        h = r['case'].get('history')
+        if h is None:
+            continue
+        if h and h[-1]['kind'] == 'edit':
+            hist['calls_after_an_edit'] += 1
+        elif h:
+            hist['calls_repeated_without_edit'] += 1
+        for st in h[-1:]:
+            if st['kind'] == 'edit':
+                hist['edits'][st['how']] = hist['edits'].get(st['how'], 0) + 1
     return {'families': fam, 'results': res, 'option_combinations': opts, 'structures_x_cutoffs_by_chain_count': nch,
-            'structures_x_cutoffs_with_a_pair_exactly_on_the_cutoff': on_cut}
+            'structures_x_cutoffs_with_a_pair_exactly_on_the_cutoff': on_cut, 'histories': hist}
 
 
 # ----------------------------------------------------------------------------------------------------------------
@@ -544,6 +779,39 @@ def transpose(pm):
     return t
 
 
+def _relations(lines, cut, bb, noH):
+    """swap / union / exactly-once relations between calls of the real code on one structure; {} when all hold"""
+    bad = {}
+    chains = sorted(set(l[21] for l in lines))
+    db = interface(lines)
+    kw = dict(cutoff=cut, only_backbone_atoms=bb, excludeH=noH)
+    kwj = {'cutoff': float(cut), 'only_backbone_atoms': bb, 'excludeH': noH}
+    two = {}
+    for a, b in itertools.permutations(chains, 2):
+        s = db.get_contact_atoms(chain1=a, chain2=b, **kw)
+        p = db.get_contact_atoms(chain1=a, chain2=b, return_contact_pairs=True, **kw)
+        two[(a, b)] = ({as_str(k): [as_int(x) for x in v] for k, v in s.items()}, {as_int(k): [as_int(x) for x in v] for k, v in p.items()})
+    for a, b in itertools.combinations(chains, 2):
+        sab, pab = two[(a, b)]
+        sba, pba = two[(b, a)]
+        if sab != sba or {k: sorted(v) for k, v in pba.items()} != {k: sorted(v) for k, v in transpose(pab).items()}:
+            bad['swap'] = {'lines': lines, 'pair': [a, b], 'kw': kwj}
+    sall = {as_str(k): [as_int(x) for x in v] for k, v in db.get_contact_atoms(allchains=True, **kw).items()}
+    pall = {as_int(k): [as_int(x) for x in v] for k, v in db.get_contact_atoms(allchains=True, return_contact_pairs=True, **kw).items()}
+    for x in chains:
+        u = sorted(set(i for y in chains if y != x for i in two[(x, y)][0][x]))
+        if sall.get(x) != u:
+            bad['union'] = {'lines': lines, 'kw': kwj, 'chain': x, 'allchains': sall.get(x), 'union': u}
+    merged = {}
+    for a, b in itertools.combinations(chains, 2):
+        for i, js in two[(a, b)][1].items():
+            merged.setdefault(i, []).extend(js)
+    if {k: sorted(v) for k, v in merged.items()} != {k: sorted(v) for k, v in pall.items()} or any(len(set(v)) != len(v) for v in pall.values()):
+        bad['once'] = {'lines': lines, 'kw': kwj, 'allchains_pairs': pall, 'merged_two_chain': merged}
+    db._close()
+    return bad
+
+
 def extra_checks(ctx):
     rng = ctx.rng
     res = []
@@ -552,34 +820,15 @@ def extra_checks(ctx):
     for _ in range(n):
         table = gen_structure(rng)
         lines = to_lines(table)
-        chains = sorted(set(l[21] for l in lines))
-        db = interface(lines)
         cut = rng.choice(CUTS)
         bb, noH = rng.random() < 0.5, rng.random() < 0.5
-        kw = dict(cutoff=cut, only_backbone_atoms=bb, excludeH=noH)
-        two = {}
-        for a, b in itertools.permutations(chains, 2):
-            s = db.get_contact_atoms(chain1=a, chain2=b, **kw)
-            p = db.get_contact_atoms(chain1=a, chain2=b, return_contact_pairs=True, **kw)
-            two[(a, b)] = ({k: [int(x) for x in v] for k, v in s.items()}, {int(k): [int(x) for x in v] for k, v in p.items()})
-        for a, b in itertools.combinations(chains, 2):
-            sab, pab = two[(a, b)]
-            sba, pba = two[(b, a)]
-            if sab != sba or {k: sorted(v) for k, v in pba.items()} != {k: sorted(v) for k, v in transpose(pab).items()}:
-                bad_swap = bad_swap or {'lines': lines, 'pair': [a, b], 'kw': {k: (float(v) if k == 'cutoff' else v) for k, v in kw.items()}}
-        sall = {k: [int(x) for x in v] for k, v in db.get_contact_atoms(allchains=True, **kw).items()}
-        pall = {int(k): [int(x) for x in v] for k, v in db.get_contact_atoms(allchains=True, return_contact_pairs=True, **kw).items()}
-        for x in chains:
-            u = sorted(set(i for y in chains if y != x for i in two[(x, y)][0][x]))
-            if sall.get(x) != u:
-                bad_union = bad_union or {'lines': lines, 'chain': x, 'allchains': sall.get(x), 'union': u}
-        merged = {}
-        for a, b in itertools.combinations(chains, 2):
-            for i, js in two[(a, b)][1].items():
-                merged.setdefault(i, []).extend(js)
-        if {k: sorted(v) for k, v in merged.items()} != {k: sorted(v) for k, v in pall.items()} or any(len(set(v)) != len(v) for v in pall.values()):
-            bad_once = bad_once or {'lines': lines, 'allchains_pairs': pall, 'merged_two_chain': merged}
-        db._close()
+        try:
+            r = _relations(lines, cut, bb, noH)
+        except Exception as e:       # an unexpected return shape or an exception of the library is a finding, not a harness failure
+            r = {'swap': {'lines': lines, 'cutoff': cut, 'bb': bb, 'noH': noH, 'raised': repr(e)[:300]}}
+        bad_swap = bad_swap or r.get('swap')
+        bad_union = bad_union or r.get('union')
+        bad_once = bad_once or r.get('once')
     res.append({'name': f'swap transposes the pair map and keeps the sets ({n} structures, real code only)', 'ok': bad_swap is None, 'case': bad_swap,
                 'detail': 'pairs(B,A) != transpose(pairs(A,B)) or different per-chain sets'})
     res.append({'name': 'all-chains sets = union of the two-chain sets over the other chains', 'ok': bad_union is None, 'case': bad_union, 'detail': ''})
@@ -588,18 +837,22 @@ def extra_checks(ctx):
     # the constants the Model takes from the source: default cutoffs and backbone names as the running library has them
     import inspect, vlib
     ans = vlib.run_driver([{'op': 'contact_defaults'}, {'op': 'backbone_names'}], which='model', cluster='C')
-    d_atoms = inspect.signature(interface.get_contact_atoms).parameters['cutoff'].default
-    d_res = inspect.signature(interface.get_contact_residues).parameters['cutoff'].default
-    probe = interface([atom_line(1, ' CA ', 'ALA', 'A', 1, 0, 0, 0)])
-    ok = (ans[0]['model'] == {'atoms': rat(float(d_atoms)), 'residues': rat(float(d_res))} and ans[1]['model'] == list(probe.backbone_atoms)
-          and sorted(probe.backbone_atoms) == sorted(BACKBONE))
+    try:
+        d_atoms = inspect.signature(interface.get_contact_atoms).parameters['cutoff'].default
+        d_res = inspect.signature(interface.get_contact_residues).parameters['cutoff'].default
+        probe = interface([atom_line(1, ' CA ', 'ALA', 'A', 1, 0, 0, 0)])
+        lib = [d_atoms, d_res, list(probe.backbone_atoms)]
+        ok = (ans[0]['model'] == {'atoms': rat(float(d_atoms)), 'residues': rat(float(d_res))} and ans[1]['model'] == list(probe.backbone_atoms)
+              and sorted(probe.backbone_atoms) == sorted(BACKBONE))
+    except Exception as e:
+        ok, lib = False, repr(e)[:300]
     res.append({'name': 'generated constants (default cutoffs, backbone names) equal those of the running library and the published backbone names',
-                'ok': ok, 'case': {'model': ans, 'library': [d_atoms, d_res, list(probe.backbone_atoms)]}, 'detail': ''})
+                'ok': ok, 'case': {'model': ans, 'library': lib}, 'detail': ''})
     # regression probe: blank atom name with excludeH (raised IndexError before the repair 01b6302)
     L = [atom_line(1, ' CA ', 'ALA', 'A', 1, 0, 0, 0), atom_line(2, '    ', 'ALA', 'B', 1, 1, 0, 0)]
     try:
         r = interface(L).get_contact_atoms(cutoff=3, excludeH=True)
-        ok = {k: [int(x) for x in v] for k, v in r.items()} == {'A': [0], 'B': [1]}
+        ok = canon_chains(r) == {'chains': [['A', [0]], ['B', [1]]]}
         det = repr(r)
     except Exception as e:
         ok, det = False, repr(e)
